@@ -52,8 +52,10 @@ fault pattern) — the step is then a controller pass — is issued for a task `
 (`t.name = c.name`) that the pass read from a pod CONTROLLED BY THE JOB, and has exactly one of the five
 reasons of `PodDeleteWhy`, each judged against the clock and configuration of the state `s` the step
 starts in and the Job `jo` in the controller's cache at that moment:
-* `pendingTimeout T`: graceful; `T = GetPendingTimeout(jo) > 0`; `t` has no running and no finish
-  timestamp, no deletion timestamp, and `creation(t) + T ≤ s.clock`;
+* `pendingTimeout T t' p'`: graceful; `T = GetPendingTimeout(jo) > 0`; `t` has no deletion timestamp; `t'`,
+  the task the pass read under that name from the pod `p'` controlled by the Job, reports no running and no
+  finish timestamp (`LastTerminationState` included) and `creation(t') + T ≤ s.clock`; the ref the cached
+  Job records under that name, if any, shows neither timestamp (repair of F32);
 * `killPassed k`: graceful; `jo.spec.killTimestamp = k ≤ s.clock`; `t` unfinished, not being deleted;
 * `decided rj'`: graceful; a Job value of the pass with `jo`'s kill timestamp and template whose parallel
   summary is decided against continuing, or that carries the admission error; `t` as before;
@@ -93,7 +95,7 @@ theorem kill_not_early {ok : Sys → Action → Prop} {j0 : JobObj} {s : Sys} (h
   refine ⟨jo, hjo, ?_⟩
   intro hnd hpt
   cases hwhy with
-  | pendingTimeout T _ _ _ hT hpos _ _ _ _ =>
+  | pendingTimeout T _ _ _ _ _ hT hpos _ _ _ _ _ _ _ _ =>
     exfalso
     rcases hpt with h | ⟨T', h, hle⟩
     · rw [h] at hT; cases hT
@@ -107,25 +109,70 @@ theorem kill_not_early {ok : Sys → Action → Prop} {j0 : JobObj} {s : Sys} (h
 while the cached Job is not being deleted and its kill timestamp has NOT passed (unset, or later than the
 clock of the step) is the pending-timeout reaper's — timeout `T > 0`, the task neither running nor
 finished nor being deleted, and `creation + T ≤ clock` of that step — or the completion / admission-error
-sweep.  A task is never reaped before its pending deadline. -/
+sweep.  A task is never reaped before its pending deadline.  (`t'`: the task the pass read under the
+call's name; the creation time and the two timestamps are the ones its pod reports in that pass.) -/
 theorem pending_not_early {ok : Sys → Action → Prop} {j0 : JobObj} {s : Sys} (hr : Reach ok j0 s)
     (c : Call) (hc : c ∈ (step s .work).calls) (hv : c.verb = "delete") (hres : c.res = "pods") (hf : c.force = false) :
     ∃ (jo : JobObj) (t : Task), s.jobCache = some jo ∧ t.name = c.name ∧
       (jo.job.deletionTimestamp = none → (¬ ∃ k : Int, jo.job.killTimestamp = some k ∧ k ≤ s.clock) →
-        (∃ T : Int, getPendingTimeout jo.job s.cfg = some T ∧ 0 < T ∧ t.ref.runningTimestamp = none ∧
-          t.ref.finishTimestamp = none ∧ t.deletionTimestamp = none ∧
-          (t.ref.creationTimestamp.getD zeroTime : Int) + T ≤ s.clock) ∨
+        (∃ (T : Int) (t' : Task), getPendingTimeout jo.job s.cfg = some T ∧ 0 < T ∧ t'.name = c.name ∧
+          t'.ref.runningTimestamp = none ∧
+          t'.ref.finishTimestamp = none ∧ t.deletionTimestamp = none ∧
+          (t'.ref.creationTimestamp.getD zeroTime : Int) + T ≤ s.clock) ∨
         ∃ rj' : Job, rj'.killTimestamp = jo.job.killTimestamp ∧ rj'.template = jo.job.template ∧
           (shouldKillJobForParallel rj' = true ∨ rj'.admissionError = true)) := by
   obtain ⟨jo, t, p, hjo, hn, _, _, hwhy⟩ := pod_delete_justified hr c hc hv hres
   refine ⟨jo, t, hjo, hn, ?_⟩
   intro hnd hnk
   cases hwhy with
-  | pendingTimeout T _ _ _ hT hpos h1 h2 hd hdt => exact Or.inl ⟨T, hT, hpos, h1, h2, hdt, hd⟩
+  | pendingTimeout T t' p' _ _ _ hT hpos hdt hn' _ _ h1 h2 hd _ => exact Or.inl ⟨T, t', hT, hpos, hn', h1, h2, hdt, hd⟩
   | killPassed k _ _ _ _ _ hk hle => exact absurd ⟨k, hk, hle⟩ hnk
   | decided rj' _ _ _ _ _ h1 h2 h3 => exact Or.inr ⟨rj', h1, h2, h3⟩
   | forceDelete dts hft _ _ _ _ _ _ => rw [hf] at hft; cases hft
   | finalizer _ hd _ => rw [hnd] at hd; cases hd
+
+/-- **`pending_only_never_ran`** (history level; the property's sentence "a task that has not begun running
+within the pending timeout … is deleted", at the strength the repair of F32 makes available; monitor
+`C12:pending-only-never-ran`).  In every step of every history (all actions allowed, any fault pattern), a
+graceful pod delete issued while the cached Job is not being deleted, its kill timestamp has not passed and
+neither the completion sweep nor the admission-error sweep applies, is issued for a task of which NEITHER
+the record NOR the pod shows that it has begun running:
+* the ref the controller's cached Job RECORDS under the task's name, if any, carries neither a running nor a
+  finish timestamp — a task recorded as running is never reaped as `PendingTimeout`, even when its container
+  has since failed and waits to be restarted (CrashLoopBackOff: no running container);
+* the pod of that name controlled by the Job, as the pass read it (`podTask p' = some t'`), reports no
+  container start — `GetContainerStartTime` now also reads `LastTerminationState.Terminated.StartedAt`, so a
+  container that started and failed between two passes counts as started — and no finish time. -/
+theorem pending_only_never_ran {ok : Sys → Action → Prop} {j0 : JobObj} {s : Sys} (hr : Reach ok j0 s)
+    (c : Call) (hc : c ∈ (step s .work).calls) (hv : c.verb = "delete") (hres : c.res = "pods") (hf : c.force = false) :
+    ∃ jo : JobObj, s.jobCache = some jo ∧
+      (jo.job.deletionTimestamp = none → (¬ ∃ k : Int, jo.job.killTimestamp = some k ∧ k ≤ s.clock) →
+        (∃ (t' : Task) (p' : PodObj), t'.name = c.name ∧ podTask p' = some t' ∧ p'.ownerUid = some j0.uid ∧
+          t'.ref.runningTimestamp = none ∧ t'.ref.finishTimestamp = none ∧
+          (∀ e, lookupRef jo.job.status.tasks c.name = some e → e.runningTimestamp = none ∧ e.finishTimestamp = none)) ∨
+        ∃ rj' : Job, rj'.killTimestamp = jo.job.killTimestamp ∧ rj'.template = jo.job.template ∧
+          (shouldKillJobForParallel rj' = true ∨ rj'.admissionError = true)) := by
+  obtain ⟨jo, t, p, hjo, hn, _, _, hwhy⟩ := pod_delete_why s c hc hv hres
+  have hu := ((base_of_reach hr).seenOK jo (mem_seenVers_cache hjo)).1.uid
+  refine ⟨jo, hjo, ?_⟩
+  intro hnd hnk
+  cases hwhy with
+  | pendingTimeout T t' p' _ _ _ _ _ _ hn' hpt' hpo' h1 h2 _ hrec =>
+    exact Or.inl ⟨t', p', hn', hpt', hu ▸ hpo', h1, h2, hrec⟩
+  | killPassed k _ _ _ _ _ hk hle => exact absurd ⟨k, hk, hle⟩ hnk
+  | decided rj' _ _ _ _ _ h1 h2 h3 => exact Or.inr ⟨rj', h1, h2, h3⟩
+  | forceDelete dts hft _ _ _ _ _ _ => rw [hf] at hft; cases hft
+  | finalizer _ hd _ => rw [hnd] at hd; cases hd
+
+/-- the pod → task mapping of `pending_only_never_ran`: a pod whose only trace of a container start is under
+`LastTerminationState` (the container failed and waits to be restarted) reports that start as its running
+timestamp — before the repair of F32 it reported none -/
+theorem crashloop_pod_reports_start (p : Pod) (st fi : Time) (hst : isUnixZero (some st) = false)
+    (hc : p.containers = [{ lastTerminated := some { startedAt := some st, finishedAt := some fi, reason := "Error" } }]) :
+    containerStartTime p = some st := by
+  unfold containerStartTime
+  rw [hc]
+  simp [hst, timeMax]
 
 /-- `force_delete_gated` (history level): in every step of every history, every FORCED pod delete is
 issued with the force-delete timeout `F > 0` configured, force deletion not forbidden by the cached Job's
@@ -139,7 +186,7 @@ theorem force_delete_gated {ok : Sys → Action → Prop} {j0 : JobObj} {s : Sys
   obtain ⟨jo, t, p, hjo, hn, _, _, hwhy⟩ := pod_delete_justified hr c hc hv hres
   refine ⟨jo, t, hjo, hn, ?_⟩
   cases hwhy with
-  | pendingTimeout T hf' _ _ _ _ _ _ _ _ => rw [hf] at hf'; cases hf'
+  | pendingTimeout T _ _ hf' _ _ _ _ _ _ _ _ _ _ _ _ => rw [hf] at hf'; cases hf'
   | killPassed k hf' _ _ _ _ _ _ => rw [hf] at hf'; cases hf'
   | decided rj' hf' _ _ _ _ _ _ _ => rw [hf] at hf'; cases hf'
   | forceDelete dts _ _ _ hpos hfb hdt hd => exact ⟨hpos, hfb, dts, hdt, hd⟩
